@@ -56,6 +56,7 @@ def drive(arg):
             continue
         inputs = [(sd, 'corpus')] + [(m, 'mutant') for m in mutants(sd, rng, per_seed, others=[rng.choice(_ALLSEEDS)])]
         inputs += [(t, 'respelling') for t in respellings(sd, rng)]
+        inputs += [(t, 'generated') for t in generated(cls)]
         seen = set()
         for data, origin in inputs:
             if data in seen:
@@ -67,6 +68,19 @@ def drive(arg):
                     continue     # factories return enum members, which are composed through their containers
                 events.append(ev)
     return events
+
+
+def generated(cls):
+    """TXT record data of chosen total lengths, split into character-strings in several ways (RFC 1035 3.3.14)"""
+    if cls.__name__ != 'DnsRecordTxt':
+        return []
+    out = []
+    for total in (0, 1, 254, 255, 256, 257, 509, 510, 511, 512, 600):
+        text = bytes(0x61 + i % 26 for i in range(total))
+        for chunk in (255, 200, 100):
+            parts = [text[i:i + chunk] for i in range(0, max(total, 1), chunk)]
+            out.append(b''.join(bytes([len(p)]) + p for p in parts))
+    return out
 
 
 def respellings(data, rng):
@@ -98,7 +112,7 @@ def run(rep):
     for e in events:
         rep.case(digest([e['cls'], e['hex']]), nontrivial=True)
     rep.extra['accepted_inputs'] = len(events)
-    rep.extra['by_origin'] = {o: sum(1 for e in events if e['origin'] == o) for o in ('corpus', 'mutant', 'respelling')}
+    rep.extra['by_origin'] = {o: sum(1 for e in events if e['origin'] == o) for o in ('corpus', 'mutant', 'respelling', 'generated')}
     rep.extra['non_canonical_accepted'] = sum(1 for e in events if e.get('hex2') and e['hex2'] != e['hex'])
     rep.rule = ('inputs: every accepted corpus input of every class, every ACCEPTED mutant of it (truncation/extension, header and '
                 'length-field corruption, byte saturation, random edits, BER length forms) and blind text respellings (case, '
